@@ -33,6 +33,14 @@ def build_args(inp):
             d = collections.defaultdict(set)
             d.update(L)
             L = d
+    # a container may mention a state / a transition more than once
+    dup = inp.get('dup')
+    if dup in ('S', 'all') and S:
+        S = S + [name(x) for x in reversed(inp['S'])]
+    if dup in ('S0', 'all') and S0:
+        S0 = S0 + [name(x) for x in inp['S0'][:2]]
+    if dup in ('R', 'all') and R:
+        R = R + [(name(a), name(b)) for a, b in inp['R'][::2]]
     ct = inp.get('ctype', 'list')
     if ct == 'set':
         S = None if S is None else set(S)
@@ -314,8 +322,9 @@ def case_iter(n):
                     if (zi + li + mask + si) % 2 and n >= 3:
                         continue        # halve the n=3 product deterministically
                     yield {'n': n, 'S': S, 'S0': S0, 'R': [list(e) for e in R], 'L': Lc,
-                           'naming': ('int', 'str', 'tuple', 'mixed', 'revint', 'opaque')[(mask + si) % 6],
+                           'naming': ('int', 'str', 'tuple', 'mixed', 'revint', 'opaque', 'numeq')[(mask + si) % 7],
                            'ctype': ('list', 'set', 'tuple')[(mask + zi) % 3],
+                           'dup': (None, 'S', 'R', 'all', 'S0', None, 'all')[(mask + si + 2 * zi + li) % 7],
                            'ltype': (None, 'ordered', 'default')[(mask + li + si) % 3]}
 
 
@@ -397,7 +406,8 @@ def random_shard(st, shard, nshards, payload):
              for k in Lk]
         V = draw(hs.lists(hs.sampled_from(uni + ['out?']), unique=True))
         return {'n': n, 'S': S, 'S0': S0, 'R': R, 'L': draw(hs.sampled_from([None, L, L, L])),
-                'naming': draw(hs.sampled_from(['int', 'str', 'tuple', 'mixed', 'revint', 'opaque'])),
+                'naming': draw(hs.sampled_from(['int', 'str', 'tuple', 'mixed', 'revint', 'opaque', 'numeq'])),
+                'dup': draw(hs.sampled_from([None, None, 'S', 'R', 'S0', 'all'])),
                 'ctype': draw(hs.sampled_from(['list', 'set', 'tuple'])), 'V': V,
                 'ltype': draw(hs.sampled_from([None, 'ordered', 'default']))}
 
